@@ -75,11 +75,20 @@ func CoqVal(b []byte) string {
 	return hx.Bytes([]byte{0, 0, byte(len(b) % 251)}) // not a value of the alphabet: never matches
 }
 
+// Z prints an integer as a hexadecimal Gallina literal of type Z: coqc reads the 8..13 digit nanosecond
+// instants of the traces about twice as fast in base 16 as in base 10 (they dominate the time of a shard)
+func Z(v int64) string {
+	if v < 0 {
+		return fmt.Sprintf("(-0x%x)%%Z", uint64(-v))
+	}
+	return fmt.Sprintf("0x%x%%Z", uint64(v))
+}
+
 func CoqOptZ(p *int64) string {
 	if p == nil {
 		return "None"
 	}
-	return "(Some " + hx.Z(*p) + ")"
+	return "(Some " + Z(*p) + ")"
 }
 
 // Class maps an error to the small enum of run/KVRun.v (never texts)
@@ -229,7 +238,7 @@ type Obs struct {
 }
 
 func (o Obs) Coq() string {
-	return fmt.Sprintf("mkObs %s %s %s (%s) (%s)", hx.Z(o.T0), hx.Z(o.T1), hx.Z(o.Skew), o.CoqOp, o.CoqOut)
+	return fmt.Sprintf("mkObs %s %s %s (%s) (%s)", Z(o.T0), Z(o.T1), Z(o.Skew), o.CoqOp, o.CoqOut)
 }
 
 // Exec runs one step on the backend. Clock steps return ok=false (nothing to compare).
